@@ -219,6 +219,73 @@ func (r *Run) noCopyLoopBefore(ff *core.FnFacts, c *ssa.Call, recv ssa.Value) (b
 			return true, fmt.Sprintf("dominated by a loop over the patch with kind ≠ copy on all %d completing iteration paths", nBack)
 		}
 	}
+	// the rejecting loop may live in a helper: Apply under ok(g(recv)) where g succeeds only after its own
+	// loop over the patch completed with kind ≠ copy for every element (no success return inside the loop)
+	for _, fc := range ff.At(c) {
+		if fc.Kind != "ok" || fc.A == nil || fc.A.Op != "call" || fc.A.Callee == nil || !r.P.IsSubject(fc.A.Callee) {
+			continue
+		}
+		g := fc.A.Callee
+		for k, a := range fc.A.Args {
+			if a.String() != rt || k >= len(g.Params) || len(g.Blocks) == 0 {
+				continue
+			}
+			gf := r.E.Facts(g, core.Ctx{})
+			for _, head := range allLoopHeads(g) {
+				nBack, good := 0, true
+				for _, ip := range loopIterationPaths(gf, head, 2000) {
+					if ip.Ret != nil {
+						// a return from inside the loop must be a failure
+						for _, ri := range gf.Returns() {
+							if ri.Ret == ip.Ret && ri.Class == core.RetSuccess {
+								good = false
+							}
+						}
+						continue
+					}
+					nBack++
+					okPath := false
+					for _, pf := range rawPathFacts(gf, ip.Blocks) {
+						if pf.Kind != "cmp" || pf.Op != "!=" || pf.B.Op != "const" || pf.B.Name != `"copy"` || pf.A.Op != "call" {
+							continue
+						}
+						hasOp, hasElem := false, false
+						for _, x := range pf.A.Args {
+							xs := x.String()
+							if xs == `"op"` {
+								hasOp = true
+							}
+							if strings.HasPrefix(xs, "range:") || strings.HasPrefix(xs, "$"+g.Params[k].Name()+"[") {
+								hasElem = true
+							}
+						}
+						if hasOp && hasElem {
+							okPath = true
+						}
+					}
+					if !okPath {
+						good = false
+					}
+				}
+				over := false
+				for _, b := range g.Blocks {
+					for _, ins := range b.Instrs {
+						switch x := ins.(type) {
+						case *ssa.Range:
+							over = over || x.X == ssa.Value(g.Params[k])
+						case *ssa.IndexAddr:
+							over = over || x.X == ssa.Value(g.Params[k])
+						case *ssa.Index:
+							over = over || x.X == ssa.Value(g.Params[k])
+						}
+					}
+				}
+				if good && nBack > 0 && over {
+					return true, fmt.Sprintf("under ok(%s(patch)), whose loop over the patch has kind ≠ copy on all %d completing iteration paths and no success return inside", core.FuncName(g), nBack)
+				}
+			}
+		}
+	}
 	return false, "Apply receives " + rt + " without a dominating loop that rejects copy operations: a copy reaches the engine"
 }
 
